@@ -56,12 +56,20 @@ pub fn run(dir: PathBuf, clock: Option<u64>, gate_gc: bool, http: bool, serve: b
     let eph_seen: std::sync::Arc<std::sync::Mutex<Vec<Value>>> = Default::default();
     let sock = dir.join("sock");
     let mut ready = json!({"ready": true});
+    let mut tcp_addr: Option<String> = None;
     if http {
         // the real front end: api::serve on the store's unix socket (appends xs.start first)
         let engine = xs::nu::Engine::new().expect("engine");
         let s2 = store.clone();
+        // With the command line tool as the client, half of the servers also listen on TCP (`xs serve --expose :PORT`,
+        // src/listener.rs) and the tool is given that address: the port is this process's own (derived from the pid) and
+        // is tried first, so that a port somebody else holds means "no TCP this time", never a server that does not start
+        let want_tcp = std::env::var("XSV_CLI").map(|s| !s.is_empty()).unwrap_or(false) && std::process::id() % 2 == 0;
+        let port = 20000 + (std::process::id() % 30000) as u16;
+        let expose = if want_tcp && std::net::TcpListener::bind(("127.0.0.1", port)).is_ok() { Some(format!(":{port}")) } else { None };
+        tcp_addr = expose.clone();
         rt.spawn(async move {
-            let _ = xs::api::serve(s2, engine, None).await;
+            let _ = xs::api::serve(s2, engine, expose).await;
         });
         let deadline = std::time::Instant::now() + Duration::from_secs(10);
         while std::os::unix::net::UnixStream::connect(&sock).is_err() {
@@ -365,7 +373,7 @@ pub fn run(dir: PathBuf, clock: Option<u64>, gate_gc: bool, http: bool, serve: b
                                   "next_status": next.status, "body": String::from_utf8_lossy(&r.body)});
                 }
                 if let Some(bin) = cli_bin.as_ref() {
-                    if let Some(v) = crate::cli::exec(bin, &dir, op, &req, nth) {
+                    if let Some(v) = crate::cli::exec(bin, &dir, tcp_addr.as_deref(), op, &req, nth) {
                         return v;
                     }
                 }
